@@ -267,6 +267,33 @@ func nilSuite(line nilLine, emit func(reflVerdict)) (origins, checks int) {
 		lib("protojson", func(m proto.Message) any { b, err := protojson.Marshal(m); return []any{len(b) > 0, err == nil} })
 		lib("prototext", func(m proto.Message) any { b, err := prototext.Marshal(m); return []any{len(b), err == nil} })
 		lib("IsValid", func(m proto.Message) any { return m.ProtoReflect().IsValid() })
+		// stores: decoding INTO the invalid message must not succeed silently. The reference panics
+		// when there is something to store and accepts an empty input; the outcome class (ok /
+		// error / panic) must be the same. (Without the Merge option proto.Unmarshal resets the
+		// target first, which panics for every implementation.)
+		store := func(what string, data []byte) {
+			checks++
+			class := func(m func() proto.Message) string {
+				var err error
+				if pn := catch(func() { err = proto.UnmarshalOptions{Merge: true}.Unmarshal(data, m()) }); pn != "" {
+					return "panic"
+				}
+				if err != nil {
+					return "error"
+				}
+				return "ok"
+			}
+			got := class(func() proto.Message { return mk().Interface() })
+			want := class(func() proto.Message { return dynamicpb.NewMessageType(md).Zero().Interface() })
+			if got != want {
+				emit(reflVerdict{What: "nil:store:" + what, Who: "pulsar", Obs: got, Want: want + " (data must not be dropped silently)", Shape: name})
+			}
+		}
+		store("MergeUnmarshalEmpty", nil)
+		store("MergeUnmarshalUnknown", validUnknown(md, 2))
+		if data := oneKnownField(md); data != nil {
+			store("MergeUnmarshalKnown", data)
+		}
 	}
 	// a parent holding the nil message must encode, size, compare and print as if it held an
 	// empty message (C09 read safety; C02/C04 byte level)
@@ -309,4 +336,44 @@ func nilSuite(line nilLine, emit func(reflVerdict)) (origins, checks int) {
 		}
 	}
 	return
+}
+
+// oneKnownField encodes a message of type md with its first scalar field set to a non-default value.
+func oneKnownField(md protoreflect.MessageDescriptor) []byte {
+	for i := 0; i < md.Fields().Len(); i++ {
+		fd := md.Fields().Get(i)
+		if fd.IsList() || fd.IsMap() || fd.Message() != nil {
+			continue
+		}
+		d := dynamicpb.NewMessage(md)
+		switch fd.Kind() {
+		case protoreflect.StringKind:
+			d.Set(fd, protoreflect.ValueOfString("x"))
+		case protoreflect.BytesKind:
+			d.Set(fd, protoreflect.ValueOfBytes([]byte{1}))
+		case protoreflect.BoolKind:
+			d.Set(fd, protoreflect.ValueOfBool(true))
+		case protoreflect.EnumKind:
+			d.Set(fd, protoreflect.ValueOfEnum(1))
+		case protoreflect.FloatKind:
+			d.Set(fd, protoreflect.ValueOfFloat32(1))
+		case protoreflect.DoubleKind:
+			d.Set(fd, protoreflect.ValueOfFloat64(1))
+		case protoreflect.Int32Kind, protoreflect.Sint32Kind, protoreflect.Sfixed32Kind:
+			d.Set(fd, protoreflect.ValueOfInt32(1))
+		case protoreflect.Int64Kind, protoreflect.Sint64Kind, protoreflect.Sfixed64Kind:
+			d.Set(fd, protoreflect.ValueOfInt64(1))
+		case protoreflect.Uint32Kind, protoreflect.Fixed32Kind:
+			d.Set(fd, protoreflect.ValueOfUint32(1))
+		case protoreflect.Uint64Kind, protoreflect.Fixed64Kind:
+			d.Set(fd, protoreflect.ValueOfUint64(1))
+		default:
+			continue
+		}
+		b, err := proto.Marshal(d)
+		if err == nil && len(b) > 0 {
+			return b
+		}
+	}
+	return nil
 }
